@@ -72,30 +72,37 @@ impl Timestamp {
         let ans = match format {
             TimestampFormat::DateTime => time::OffsetDateTime::parse(s, &Rfc3339)?,
             TimestampFormat::HttpDate => time::PrimitiveDateTime::parse(s, RFC1123)?.assume_utc(),
-            TimestampFormat::EpochSeconds => match s.split_once('.') {
-                Some((secs, frac)) => {
-                    let secs: i64 = secs.parse::<u64>()?.try_into().map_err(|_| ParseTimestampError::Overflow)?;
-                    let val: u32 = frac.parse::<u32>()?;
-                    let mul: u32 = match frac.len() {
-                        1 => 100_000_000,
-                        2 => 10_000_000,
-                        3 => 1_000_000,
-                        4 => 100_000,
-                        5 => 10000,
-                        6 => 1000,
-                        7 => 100,
-                        8 => 10,
-                        9 => 1,
-                        _ => return Err(ParseTimestampError::Overflow),
-                    };
-                    let nanos = i128::from(secs) * 1_000_000_000 + i128::from(val * mul);
-                    time::OffsetDateTime::from_unix_timestamp_nanos(nanos)?
-                }
-                None => {
-                    let secs: i64 = s.parse::<u64>()?.try_into().map_err(|_| ParseTimestampError::Overflow)?;
-                    time::OffsetDateTime::from_unix_timestamp(secs)?
-                }
-            },
+            TimestampFormat::EpochSeconds => {
+                // instants before 1970 are negative numbers
+                let (negative, s) = match s.strip_prefix('-') {
+                    Some(rest) => (true, rest),
+                    None => (false, s),
+                };
+                let nanos = match s.split_once('.') {
+                    Some((secs, frac)) => {
+                        let secs: i64 = secs.parse::<u64>()?.try_into().map_err(|_| ParseTimestampError::Overflow)?;
+                        let val: u32 = frac.parse::<u32>()?;
+                        let mul: u32 = match frac.len() {
+                            1 => 100_000_000,
+                            2 => 10_000_000,
+                            3 => 1_000_000,
+                            4 => 100_000,
+                            5 => 10000,
+                            6 => 1000,
+                            7 => 100,
+                            8 => 10,
+                            9 => 1,
+                            _ => return Err(ParseTimestampError::Overflow),
+                        };
+                        i128::from(secs) * 1_000_000_000 + i128::from(val * mul)
+                    }
+                    None => {
+                        let secs: i64 = s.parse::<u64>()?.try_into().map_err(|_| ParseTimestampError::Overflow)?;
+                        i128::from(secs) * 1_000_000_000
+                    }
+                };
+                time::OffsetDateTime::from_unix_timestamp_nanos(if negative { -nanos } else { nanos })?
+            }
         };
         Ok(Self(ans))
     }
@@ -116,12 +123,15 @@ impl Timestamp {
             TimestampFormat::EpochSeconds => {
                 let val = self.0.unix_timestamp_nanos();
 
-                #[allow(clippy::cast_precision_loss)] // FIXME: accurate conversion?
-                {
-                    let secs = (val / 1_000_000_000) as f64;
-                    let nanos = (val % 1_000_000_000) as f64 / 1_000_000_000.0;
-                    let ts = secs + nanos;
-                    write!(w, "{ts}")?;
+                // exact decimal rendering (floating point addition gave `1.2429999999999999` for 1.243)
+                let sign = if val < 0 { "-" } else { "" };
+                let secs = val.unsigned_abs() / 1_000_000_000;
+                let nanos = val.unsigned_abs() % 1_000_000_000;
+                if nanos == 0 {
+                    write!(w, "{sign}{secs}")?;
+                } else {
+                    let frac = format!("{nanos:09}");
+                    write!(w, "{sign}{secs}.{}", frac.trim_end_matches('0'))?;
                 }
             }
         }
